@@ -168,8 +168,11 @@ def scramble(h, codes, trace=None, warmup=None):
          (e is inserted again should the call have removed it)
       8  remove a hyperedge, ask the queries, insert it again (the last mutation is an insertion)
       9  insert an extra hyperedge, ask the queries, remove it (the last mutation is a removal)
-     11  (unweighted containers) a REJECTED insertion: add a new hyperedge with weight 3
-     10  (Hypergraph) replace the first listed hyperedge e by e + {Z} and shrink it back with
+     11  an insertion the container may refuse (weight 3 on an unweighted container; metadata
+         that is not a dict): refused -> nothing may linger, accepted -> removed again
+     10  (Temporal/Multiplex) singleton record(s) of a new node Z emptied by
+         remove_node(Z, keep_edges=True);
+         (Hypergraph) replace the first listed hyperedge e by e + {Z} and shrink it back with
          remove_node(Z, keep_edges=True) (no merge: e is absent at that moment)
     Nodes, hyperedges, weights and metadata are the same before and after.
     """
@@ -182,9 +185,7 @@ def scramble(h, codes, trace=None, warmup=None):
         edges = list(h.get_edges())
         a = sorted(nodes, key=repr)[0]
         code = code % 12
-        if code == 11 and h.is_weighted():
-            code = 7
-        if code == 10 and (kind != "Hypergraph" or z is None or not edges):
+        if code == 10 and (kind == "DirectedHypergraph" or z is None or not edges):
             code = 4
         if code == 7 and kind not in ("Hypergraph", "DirectedHypergraph"):
             code = 6
@@ -235,15 +236,24 @@ def scramble(h, codes, trace=None, warmup=None):
                 except Exception:  # noqa: the warm-up only populates caches
                     pass
             if other is not None and variant == 11:
-                # a REJECTED insertion: an unweighted container refuses a weight other than 1
-                # (ValueError) -- the new hyperedge must not linger anywhere
+                # an insertion that the container may refuse: a weight other than 1 on an
+                # unweighted container (documented ValueError), or -- every other time, and always
+                # on weighted containers -- metadata that is not a dict (accepted today; a
+                # container that validates it must refuse BEFORE it registers anything).
+                # Refused: the new hyperedge must not linger anywhere.  Accepted: it is removed.
+                bad_weight = (not h.is_weighted()) and len(edges) % 2 == 0
                 try:
-                    add(other, weight=3)
-                except ValueError:
-                    step = "rejected insertion of %r with weight 3 (unweighted)" % (other,)
+                    if bad_weight:
+                        add(other, weight=3)
+                    else:
+                        add(other, metadata=["not", "a", "dict"])
+                except (ValueError, TypeError):
+                    step = "refused insertion of %r (%s)" % (
+                        other, "weight 3, unweighted" if bad_weight else "metadata not a dict")
                 else:
                     rem(other)
-                    step = "insertion of %r with weight 3 accepted (unweighted), removed" % (other,)
+                    step = "insertion of %r (%s) accepted, removed again" % (
+                        other, "weight 3, unweighted" if bad_weight else "metadata not a dict")
             elif other is not None:
                 w, m = get(e)
                 back = dict(weight=w) if h.is_weighted() else {}
@@ -266,6 +276,19 @@ def scramble(h, codes, trace=None, warmup=None):
                     ask()
                     rem(other)
                     step = "insert %r, query, remove it" % (other,)
+        elif code == 10 and kind in ("TemporalHypergraph", "MultiplexHypergraph"):
+            # a record whose only node is a new node Z, emptied by remove_node(Z,
+            # keep_edges=True): nothing is left to keep, the record disappears with the node
+            # (C03/C04 model; the plain Hypergraph's empty hyperedge is unspecified and not used)
+            if kind == "TemporalHypergraph":
+                t0 = edges[0][0]
+                h.add_edge((z,), t0)
+                if len(edges[0][1]) >= 1:
+                    h.add_edge((z,), t0 + 1)
+            else:
+                h.add_edge((z,), edges[0][1])
+            h.remove_node(z, keep_edges=True)
+            step = "singleton record(s) of a new node %r, remove_node(%r, keep_edges=True)" % (z, z)
         elif code == 10:
             # a hyperedge that is not the last listed one is replaced by itself plus a new node
             # Z and comes back through remove_node(Z, keep_edges=True) -- the shrink path that
